@@ -205,6 +205,24 @@ func c12Seq(tier string, seed int64, idx int, scratch string) rt.CaseResult {
 		}
 		c.AddDistinct(fmt.Sprintf("%s/%s/paced=%v/ok", modeName(mode), shapeOf(seq), pace))
 	}
+	// files that are written much faster than they are stored: the pipe's buffer grows while
+	// the storing side reads from it (8 MiB in writes of about 1 MiB, with empty and 1-byte
+	// writes in between)
+	if mode == dbx.Inline {
+		for i := 0; i < tierN(tier, 6, 10); i++ {
+			var seq []int
+			for total := 0; total < 8<<20; {
+				n := []int{1 << 20, 0, 1<<20 + 1, 1, 1<<20 - 1}[len(seq)%5]
+				seq = append(seq, n)
+				total += n
+			}
+			c.Evals++
+			if !c12WriteFile(&c, env, nil, fmt.Sprintf("big%d", i%2), fmt.Sprintf("c%d-big%d", idx, i), seq, false, nil, false, refmodel.OK, "writer-ahead-8MiB") {
+				return c
+			}
+			c.AddDistinct(fmt.Sprintf("%s/writer-ahead-8MiB/ok", modeName(mode)))
+		}
+	}
 	// storing failures: empty key; no space on every root
 	prev := seqrun.Content(fmt.Sprintf("c%d-prev", idx), 100)
 	env.DB.Set(ctxBg, "victim", prev)
